@@ -47,7 +47,7 @@ func init() {
 	h.Register(&h.Prop{
 		ID: "C19",
 		Rule: "cases: hr (handleReq through the hook: EVERY assignment of the 7 endpoint outcomes to 1..4 endpoints, operation-context cancellation at every position), " +
-			"seq (real adaptor connected by its own Connect to 1..3 scripted JSON-RPC endpoints: EVERY assignment of the 6 property outcomes to 1..3 endpoints, each with one of the six calls and boundary arguments; " +
+			"seq (real adaptor connected by its own Connect to 1..3 scripted JSON-RPC endpoints: EVERY assignment of the 6 property outcomes to 1..3 endpoints x each of the six calls, with boundary arguments; " +
 			"all six calls x boundary arguments on a healthy endpoint; 2-3 call sequences so that earlier failures leave cancelled endpoints), sig/pk (marshalling incl. leading zeros); " +
 			"non-trivial = at least one endpoint does not simply accept, or an argument has a leading zero byte / boundary size; distinct = distinct case line",
 		Gen:        gen,
